@@ -5,17 +5,19 @@ import YaegiVerif.Expected.C19
 /- Line-protocol front end for C19 (glue, not a proof obligation).
 
    run GRAPH TRAMP BPS CMDS TAPE
-     GRAPH = (g (code tnext fnext line posValid isNop parent (children…) func start) …)   node i = i-th entry;
+     GRAPH = (g (code clo fwd tnext fnext line posValid isNop parent (children…) func start) …)   node i = i-th entry;
+             code/clo: identity of the code / of the closure object of n.exec; fwd: identity of n.debug.forward (0 none);
              -1 = none; func = - for none
      TRAMP = code of the forwarding closures of setExec
      BPS   = (b (l 9) (f name) …)
      CMDS  = (c c e i o u p t …)     continue, step entry/into/over/out/other, terminate; the first starts the session
      TAPE  = (t (c s) (n k tramp) (z) (p) …)   what the closures did, in order: call runCfg on node s, hand over
              to the closure of node k (through a forwarding closure or not), return nil, panic
-   → marks=i.i.i y=EVENTS g=EVENTS out=halt0|halt1|run left=N steps=N sep=0|1 resp=ok|tramp|nonedge
+   → marks=i.i.i y=EVENTS g=EVENTS out=halt0|halt1|run left=N steps=N idsep=0|1 sep=0|1 resp=ok|unrecorded|nonedge
      marks: nodes that break after SetBreakpoints (sorted); y: events of the model of yaegi's debugger; g: events of the
      reference debugger; EVENTS = reason:line:step,… (- if none); left: tape items not consumed; steps: closures executed;
-     sep: codeSeparates; resp: the tape follows the edges of the graph -/
+     idsep: idSeparates; sep: codeSeparates (domain of the unchanged code); resp: the tape follows the edges of the
+     graph (hypothesis Respects), unrecorded = through a forwarding closure that is not recorded on its node -/
 namespace YaegiVerif.Driver.C19
 open YaegiVerif YaegiVerif.Debug
 
@@ -28,8 +30,10 @@ def optNat (s : Sexp) : Option (Option Nat) :=
 
 def parseNode (s : Sexp) : Option Node :=
   match s with
-  | .list [code, t, f, line, pv, nop, parent, .list ch, .atom fn, start] => do
+  | .list [code, clo, fwd, t, f, line, pv, nop, parent, .list ch, .atom fn, start] => do
     let code ← code.nat?
+    let clo ← clo.nat?
+    let fwd ← fwd.nat?
     let t ← optNat t
     let f ← optNat f
     let line ← line.nat?
@@ -38,7 +42,7 @@ def parseNode (s : Sexp) : Option Node :=
     let parent ← optNat parent
     let ch ← ch.mapM Sexp.nat?
     let start ← optNat start
-    some { code, tnext := t, fnext := f, line, posValid := pv, isNop := nop, parent, children := ch,
+    some { code, clo, fwd, tnext := t, fnext := f, line, posValid := pv, isNop := nop, parent, children := ch,
            func := if fn == "-" then none else some fn, start }
   | _ => none
 
@@ -67,13 +71,19 @@ def parseItem (s : Sexp) : Option Item :=
   | .list [.atom "p"] => some .panic
   | _ => none
 
+/-- identity of a forwarding closure that no node records (it differs from every pointer) -/
+def ghostId : Nat := 1
+
+/-- the forwarding closure through which node `k` is reached on a back edge -/
+def trampClo (g : Graph) (tramp k : Nat) : Clo := ⟨k, tramp, if g.fwd k = 0 then ghostId else g.fwd k⟩
+
 /-- the closures do what the tape says -/
 def oracle (g : Graph) (tramp : Nat) : Prog (List Item) :=
   ⟨fun st _ _ =>
     match st with
     | [] => ([], .next none)
     | .call s :: rest => (rest, .call s (entryClo g s))
-    | .next k tr :: rest => (rest, .next (some ⟨k, if tr then tramp else g.code k⟩))
+    | .next k tr :: rest => (rest, .next (some (if tr then trampClo g tramp k else nodeClo g k)))
     | .nil :: rest => (rest, .next none)
     | .panic :: rest => (rest, .panic)⟩
 
@@ -92,8 +102,8 @@ def respects (g : Graph) : List Item → List Nat → String
   | [], _ => "ok"
   | .call s :: rest, stack => if g.code s = 0 then respects g rest stack else respects g rest (s :: stack)
   | .next k tr :: rest, i :: stack =>
-    if tr then "tramp"
-    else if g.code k ≠ 0 ∧ (g.tnext i = some k ∨ g.fnext i = some k) then respects g rest (k :: stack)
+    if g.code k ≠ 0 ∧ (g.tnext i = some k ∨ g.fnext i = some k) then
+      (if tr ∧ g.fwd k = 0 then "unrecorded" else respects g rest (k :: stack))
     else "nonedge"
   | .next _ _ :: _, [] => "nonedge"
   | .nil :: rest, _ :: stack => respects g rest stack
@@ -124,7 +134,7 @@ def handle (args : List Sexp) : String :=
        let r := drun ⟨LoopFacts.ofRaw Expected.C19.facts, g, marked, true⟩ P fuel (DCfg.init tape cmds)
        let ms := marks.foldl (fun acc x => insertSorted x acc) []
        let msS := if ms.isEmpty then "-" else ".".intercalate (ms.map toString)
-       s!"marks={msS} y={showEvents g y.events} g={showEvents g r.events} out={showOut y.ctl} left={y.st.length} steps={y.trace.length} sep={if codeSeparates g then 1 else 0} resp={respects g tape []}"
+       s!"marks={msS} y={showEvents g y.events} g={showEvents g r.events} out={showOut y.ctl} left={y.st.length} steps={y.trace.length} idsep={if idSeparates g then 1 else 0} sep={if codeSeparates g then 1 else 0} resp={respects g tape []}"
      | _, _, _, _, _ => "bad-op")
   | _ => "bad-op"
 
